@@ -12,7 +12,7 @@ PATHS = {"A": ("sp", ("a",)), "B": ("sp", ("b", "c")), "X": ("doc", ("x",)), "N"
 U_FULL = [1, 1.0, True, 2, 2.5, None, "1", "ab", [1, 2], {"c": 1}, {"c": "x"}, MISSING, 0, False, -2, -2.0,
           [{"x": 1}], [{"x": 1.0, "y": 2}]]  # lists holding mappings (hashed through a helper type inside the index)
 # reduced universes (combination levels)
-U_RED = {"A": [1, 1.0, True, "1", [1, 2], MISSING], "B": [1, "x", MISSING], "X": [1, 2.5, MISSING],
+U_RED = {"A": [1, 1.0, True, "1", "ab", [1, 2], MISSING], "B": [1, "x", MISSING], "X": [1, 2.5, MISSING],
          "N": [1, MISSING], "S": [1, "x", MISSING], "D": [1, MISSING]}
 U_COLLIDE = [1, 1.0, True, "1", MISSING, -2, -2.0]
 
@@ -56,7 +56,9 @@ R30 = [
     ("S", None, 1), ("S", "$exists", True), ("D", None, 1), ("D", "$lt", 2),
 ]
 R8 = [("A", None, 1), ("A", "$type", "bool"), ("A", "$exists", False), ("A", "$gt", 1),
-      ("B", None, "x"), ("X", "$gte", 2.5), ("X", "$exists", True), ("N", "$ne", 1)]
+      ("B", None, "x"), ("X", "$gte", 2.5), ("X", "$exists", True), ("N", "$ne", 1),
+      # two different non-numeric values under one key (results that are the index's own sets)
+      ("A", None, "1"), ("A", None, "ab")]
 
 
 def key_of(p):
